@@ -97,6 +97,9 @@ def bounded(ctx, b):
     for t in tx[:len(ADVERSARIAL)] + rng.sample(tx, 40):
         cases.append(([t, t], "plain"))                                   # a line said twice is two lines
         cases.append(([t, t, rng.choice(tx), t], "plain"))
+    # a caption that ends with a line break: its last line keeps its last characters (letters that also occur in '<br/>')
+    for t in ["What a lovely car", "crab", "either/", "a <br/>", "rb/", "b"]:
+        cases += [([t], "trailing_break"), (["first", t], "trailing_break"), ([t, "last"], "leading_break")]
     shared_objects(ctx, b, tx, rng)
     for lines, variant in cases:
         # three cues: the adversarial one in the middle, so that a cue ended early, merged or lost shows
